@@ -4,6 +4,7 @@ History invariant monitor: init, then 1-12 public mutating operations with valid
 invalid / unknown-key arguments; after EVERY operation (quiescent point) the invariants I1-I7 are
 evaluated from the driver on full snapshots of the three views (mapping, attributes, __dict__)."""
 import copy
+from decimal import Decimal
 
 from .. import values as V
 from ..execu import run
@@ -35,8 +36,13 @@ TYPES = {
     "str": (str, ["ab", ""], [8, b"xy"], []),
     "listint": (None, [[1, 2], []], ["3,4", ("5",)], ["x,y", [None]]),
     "optint": (None, [9, None], ["10"], ["x", [1, 2]]),
+    # values that compare equal but are distinguishable (a property may depend on the representation)
+    "dec": (None, [Decimal("2.5"), Decimal("2.50"), Decimal("0"), Decimal("0.0"), Decimal("7")], ["2.5", "2.500", 7], ["x", [1]]),
+    "numif": (None, [3, 3.0, 0.0, -0.0, 0], ["4"], ["x", [1]]),
 }
-PROP = {"int": lambda v: v * 2, "str": lambda v: len(v), "listint": lambda v: len(v), "optint": lambda v: (v or 0) + 1}
+PROP = {"int": lambda v: v * 2, "str": lambda v: len(v), "listint": lambda v: len(v), "optint": lambda v: (v or 0) + 1,
+        "dec": lambda v: str(v), "numif": lambda v: repr(v)}
+PROP_RET = {"dec": str, "numif": str}
 _uid = [0]
 
 
@@ -53,6 +59,10 @@ def conforms_leaf(t, v):
         return isinstance(v, list) and all(isinstance(x, int) and not isinstance(x, bool) for x in v)
     if t == "optint":
         return v is None or (isinstance(v, int) and not isinstance(v, bool))
+    if t == "dec":
+        return isinstance(v, Decimal)
+    if t == "numif":
+        return isinstance(v, (int, float)) and not isinstance(v, bool)
     return True
 
 
@@ -61,11 +71,11 @@ def make_case(i, rng, tier):
     n = rng.randint(1, 4)
     fields = []
     for j in range(n):
-        t = rng.choice(["int", "int", "str", "listint", "optint"])
+        t = rng.choice(["int", "int", "str", "listint", "optint", "dec", "numif"])
         f = {"name": "f%d" % j, "type": t, "required": rng.random() < 0.5, "default": None, "alias": None, "ci": False, "no_output": None,
              "immutable": rng.random() < 0.15}
         if not f["required"]:
-            f["default"] = rng.choice([{"int": 1, "str": "d", "listint": [9], "optint": None}[t], "<none>"])
+            f["default"] = rng.choice([{"int": 1, "str": "d", "listint": [9], "optint": None, "dec": Decimal("1.0"), "numif": 1}[t], "<none>"])
         if rng.random() < 0.3:
             f["alias"] = "f%dAl" % j
         if rng.random() < 0.12:
@@ -176,7 +186,7 @@ def build(case):
         o["addition"] = int
     ns = {"__annotations__": {}, "__module__": "vmon_generated", "__qualname__": name, "__options__": Options(**o)}
     import typing
-    ann = {"int": int, "str": str, "listint": typing.List[int], "optint": typing.Optional[int]}
+    ann = {"int": int, "str": str, "listint": typing.List[int], "optint": typing.Optional[int], "dec": Decimal, "numif": typing.Union[int, float]}
     for f in case["fields"]:
         ns["__annotations__"][f["name"]] = typing.Final[ann[f["type"]]] if f.get("final") else ann[f["type"]]
         kw = {}
@@ -206,7 +216,7 @@ def build(case):
         def getter(self, _dep=dep, _fn=fn):
             return _fn(getattr(self, _dep))
 
-        getter.__annotations__ = {"return": int}
+        getter.__annotations__ = {"return": PROP_RET.get(t, int)}
         getter.__name__ = case["prop"].get("name", "prop")
         ns[getter.__name__] = property(Field(dependencies=[dep])(getter) if case["prop"]["with_field"] else getter)
     return type(basecls)(name, (basecls,), ns)
